@@ -42,6 +42,7 @@ func runC12(c *eng.Ctx) {
 	rt.SetNoise(100) // godi's internal yield points perturb the schedule of the concurrent Close groups
 	defer func() { rt.SetNoise(0); c.R.Count("internal_yield_points_passed", rt.YieldCount()) }()
 	runC12RootContext(c, next)
+	runC12Reentrant(c, next)
 	core.RunFuncDisposables(c, "C12", next)
 	nCases := c.Pick(120, 3000)
 	for k := 0; k < nCases; k++ {
@@ -263,6 +264,23 @@ func closePlan(c *eng.Ctx, r *core.Run, rng *rand.Rand, failing map[[3]int]bool,
 		if cc.group > 0 && cc.ret != lastOfGroup[cc.group] {
 			continue
 		}
+		// ... and only a call that no other closing activity on the same scope or an ancestor
+		// overlaps: a Close that finds the scope already being closed (by another caller, by
+		// the cascade of an ancestor's Close, by the context watcher) returns nil without
+		// waiting for that disposal to finish - the statement asks for nil and "closes nothing
+		// a second time", not for a completed disposal at that moment
+		overlapped := cancelRaced[cc.scope] || ancestorCancelRaced(r, cc.scope, cancelRaced)
+		for j, other := range calls {
+			if j == i || other.ret == 0 {
+				continue
+			}
+			if other.call < cc.ret && other.ret > cc.call && (other.scope == 0 || r.AncestorOrSelf(other.scope, cc.scope)) {
+				overlapped = true
+			}
+		}
+		if overlapped {
+			continue
+		}
 		for _, x := range owned {
 			if !subtreeOf(cc.scope, x.Owner) {
 				continue
@@ -280,10 +298,13 @@ func closePlan(c *eng.Ctx, r *core.Run, rng *rand.Rand, failing map[[3]int]bool,
 	}
 	// (2) per Close call: which instances did it dispose (close events inside its call/return window on any goroutine
 	// for sequential plans; for concurrent groups the winner is the call with events on its own goroutine)
-	failedIn := func(lo, hi int64) (nFail, nClosed int) {
+	// (only instances owned by the subtree of the scope the calls were made on: a Close of
+	// ANOTHER scope that found it already being closed has returned nil at once, and the
+	// disposal it did not wait for may still be running inside this window)
+	failedIn := func(target int, lo, hi int64) (nFail, nClosed int) {
 		for id, cls := range o.Closes {
 			x, ok := ownerOf[id]
-			if !ok {
+			if !ok || !subtreeOf(target, x.Owner) {
 				continue
 			}
 			for _, cl := range cls {
@@ -299,7 +320,7 @@ func closePlan(c *eng.Ctx, r *core.Run, rng *rand.Rand, failing map[[3]int]bool,
 	}
 	if !concurrent {
 		for i, cc := range calls {
-			nFail, nClosed := failedIn(cc.call, cc.ret)
+			nFail, nClosed := failedIn(cc.scope, cc.call, cc.ret)
 			where := fmt.Sprintf("close call %d on %s", i, scopeName(cc.scope))
 			switch {
 			case cc.class != "ok" && cc.class != "disposal":
@@ -337,10 +358,12 @@ func closePlan(c *eng.Ctx, r *core.Run, rng *rand.Rand, failing map[[3]int]bool,
 				}
 			}
 			last := ccs[len(ccs)-1]
-			if nf, nc := failedIn(last.call, last.ret); last.err != nil || nc > 0 {
+			// what THIS call disposed: close events on its own goroutine (another caller, or the
+			// context watcher, may still be disposing while it returns nil)
+			if nf, nc := 0, len(last.closed); last.err != nil || nc > 0 {
 				fs = append(fs, core.Finding{Clause: "repeated-close-not-idempotent", Sig: ownerKind(sc) + ":after-concurrent", Detail: fmt.Sprintf("Close on %s after the concurrent group returned %v and closed %d instances (%d failing)", scopeName(sc), last.err, nc, nf)})
 			}
-			nFail, nClosed := failedIn(lo, hi)
+			nFail, nClosed := failedIn(sc, lo, hi)
 			if nonNil > 1 {
 				fs = append(fs, core.Finding{Clause: "two-closes-report-errors", Sig: ownerKind(sc), Detail: fmt.Sprintf("%d of %d concurrent Close calls on %s returned an error; only the one that disposed may", nonNil, len(ccs)-1, scopeName(sc))})
 			}
